@@ -26,6 +26,7 @@ const (
 	opGoexit
 	opNumG
 	opSpawn
+	opGoexitD
 )
 
 type selCase struct {
@@ -173,8 +174,19 @@ func run(g int) {
 		case opSpawn:
 			go body(o.v)
 			logf(g, "go")
+		case opGoexitD:
+			logf(g, "x")
+			goexitDeferred(g, o.c)
 		}
 	}
+}
+
+func goexitDeferred(g, c int) {
+	defer func() {
+		v, ok := <-chans[c]
+		logf(g, "dr"+itoa(v)+","+btoa(ok))
+	}()
+	runtime.Goexit()
 }
 
 func body(g int) {
